@@ -646,6 +646,14 @@ func (x *Exec) buildUpload(op Op) *Req {
 		r.Header.Set("Content-MD5", md5b64(body))
 	case "wrong":
 		r.Header.Set("Content-MD5", md5b64(append(append([]byte{}, body...), 'x')))
+	case "zero":
+		r.Header.Set("Content-MD5", base64.StdEncoding.EncodeToString(make([]byte, 16)))
+	case "ones":
+		r.Header.Set("Content-MD5", base64.StdEncoding.EncodeToString(bytes.Repeat([]byte{0xff}, 16)))
+	case "flip":
+		sum := md5sum(body)
+		sum[15] ^= 1
+		r.Header.Set("Content-MD5", base64.StdEncoding.EncodeToString(sum))
 	case "malformed":
 		r.Header.Set("Content-MD5", "%%%not-base64%%%")
 	case "short":
